@@ -3,7 +3,7 @@ use std::collections::VecDeque;
 
 use crate::{Rng, Runner};
 
-pub const DGRAM_RULE: &str = "case = cfg/env then up to maxops of send(drop 0/1)/write/wloop/rcvd/recv/space/maxsize/hasspace/ovs/bhglue with sizes biased to the buffer, window and max_size boundaries (three regimes: tiny buffers, realistic MTU-sized, degenerate: datagrams disabled / unsupported / MTU below overhead), occasional re-env (MTU increase, black-hole fallback) and a malformed tail (poked totals) in 1 of 12 cases; non-trivial = at least one eviction (send-side or receive-side), one written frame and one Blocked send";
+pub const DGRAM_RULE: &str = "case = cfg/env then up to maxops of send(drop 0/1)/write/wloop/rcvd/recv/ptx/space/maxsize/hasspace/ovs/bhglue with sizes biased to the buffer, window and max_size boundaries (three regimes: tiny buffers, realistic MTU-sized, degenerate: datagrams disabled / unsupported / MTU below overhead), occasional re-env (MTU increase, black-hole fallback) and a malformed tail (poked totals) in 1 of 12 cases; non-trivial = at least one eviction (send-side or receive-side), one written frame and one Blocked send";
 
 fn cksum(b: &[u8]) -> u64 {
     let mut h: u64 = 7;
@@ -210,6 +210,15 @@ pub fn dgram(rng: &mut Rng, r: &mut Runner, maxops: usize) {
                     r.oracle_fail(&format!("key=dgram-send-admission send {len} drop={drop} max={max:?} buf={send_buf} total={} -> {res}, property says {expect}", before.total));
                 }
                 if res == "ok" {
+                    // RFC 9221 section 3: max_datagram_frame_size bounds the whole frame (type, length, payload), and
+                    // 0 means "DATAGRAM frames not supported".  quinn always encodes the length: the frame it will
+                    // write has 1 + varint(len) + len bytes (audit SD-26)
+                    if let Some(p) = peer {
+                        let frame = 1 + varint(len).len() as u64 + len;
+                        if frame > p {
+                            r.oracle_fail(&format!("key=dgram-send-exceeds-peer-limit send accepted {len} bytes (a {frame}-byte DATAGRAM frame) although the peer advertised max_datagram_frame_size = {p}"));
+                        }
+                    }
                     // oldest dropped first, minimal eviction, appended intact, accounting
                     let k = before.out.len() + 1 - now.out.len().min(before.out.len() + 1);
                     if now.out.last() != Some(&d) || now.out[..now.out.len() - 1] != before.out[k.min(before.out.len())..] {
@@ -342,6 +351,18 @@ pub fn dgram(rng: &mut Rng, r: &mut Runner, maxops: usize) {
                             r.oracle_fail(&format!("key=dgram-oversized oversized datagram not rejected: {res}"));
                         }
                     }
+                    // RFC 9221 section 3: "An endpoint that receives a DATAGRAM frame that is larger than the value it
+                    // sent in its max_datagram_frame_size transport parameter MUST terminate the connection with an
+                    // error of type PROTOCOL_VIOLATION"; the value sent is min(datagram_receive_buffer_size, 65535)
+                    // (transport_parameters.rs) and covers the type byte too: the SMALLEST frame that can carry
+                    // `len` payload bytes (no length field) has len + 1 bytes (audit SD-17)
+                    Some(w) if len + 1 > w.min(65535) => {
+                        if !res.starts_with("err PROTOCOL_VIOLATION") {
+                            r.oracle_fail(&format!("key=dgram-oversized-vs-advertised a DATAGRAM frame of at least {} bytes accepted although max_datagram_frame_size = {} was advertised (receive buffer {w}): {res}", len + 1, w.min(65535)));
+                        }
+                        // the datagram was buffered (or dropped): keep the FIFO shadow in step
+                        shadow_in = now.inc.iter().copied().collect();
+                    }
                     Some(w) => {
                         // The property (C16 "may be dropped ... when a buffer overflows the oldest are dropped
                         // first", C06 "never exceeds the configured receive windows", C03 "grow memory without
@@ -409,6 +430,50 @@ pub fn dgram(rng: &mut Rng, r: &mut Runner, maxops: usize) {
                 };
                 if res != expect {
                     r.oracle_fail(&format!("key=dgram-recv-fifo recv returned {res}, FIFO says {expect}"));
+                }
+            }
+            obs = now;
+        } else if choice < 88 && mtu >= 1200 {
+            // ---------------------------------------------------------------- poll_transmit: purge of unsendable heads
+            // C16 / audit SD-13: a datagram that send() accepted is transmitted or dropped once the connection can
+            // send; the maximum may have shrunk since (re-env above).  Property: after the purge that precedes every
+            // transmission the head of the queue fits the current maximum; only datagrams that do NOT fit any more
+            // were dropped, from the front; a blocked sender is told DatagramsUnblocked when something was dropped
+            let max = query_max(r);
+            let before = obs.clone();
+            resp = r.op("dgram ptx");
+            if resp == "panic" {
+                if oracle_on && max.is_ok() { r.oracle_fail("key=dgram-ptx-panic poll_transmit panicked from a consistent state"); }
+                return;
+            }
+            let Some((res, now)) = parse(&resp) else { r.oracle_fail("key=dgram-parse unparsable response"); return };
+            if oracle_on {
+                match max {
+                    Ok(Some(m)) => {
+                        let k = before.out.len() - now.out.len().min(before.out.len());
+                        if now.out[..] != before.out[k..] {
+                            r.oracle_fail("key=dgram-purge-not-a-prefix poll_transmit changed the send queue other than by dropping a prefix");
+                        } else if before.out[..k].iter().any(|d| d.0 <= m) {
+                            r.oracle_fail(&format!("key=dgram-purge-dropped-fitting poll_transmit dropped a queued datagram that still fits max_size() = {m}"));
+                        }
+                        if let Some(h) = now.out.first() {
+                            if h.0 > m {
+                                r.oracle_fail(&format!("key=dgram-accepted-but-unsendable a {}-byte datagram stays at the head of the send queue after poll_transmit although max_size() = {m}: it fits no packet and blocks the queue", h.0));
+                            }
+                        }
+                        if now.total != sum(&now.out) {
+                            r.oracle_fail("key=dgram-total-eq-sum outgoing_total != sum of queued lengths");
+                        }
+                        let expect_unblocked = k > 0 && before.blocked;
+                        if (res == "ok 1") != expect_unblocked || now.blocked != (before.blocked && k == 0) {
+                            r.oracle_fail(&format!("key=dgram-unblock poll_transmit purge: {res}, blocked {} -> {}, dropped {k}", before.blocked, now.blocked));
+                        }
+                    }
+                    _ => {
+                        if now.out != before.out {
+                            r.oracle_fail("key=dgram-purge-not-a-prefix poll_transmit changed the send queue although datagrams are unsupported by the peer");
+                        }
+                    }
                 }
             }
             obs = now;
